@@ -180,7 +180,7 @@ func C08(tier string) int {
 					undefinedSkipped++
 					// crash freedom still holds
 					if _, pan := matchSafe(travs[v.Name], expr); pan != "" {
-						run.Report(vf.Violation{Sig: fmt.Sprintf("cond|%s|panic", op), Detail: fmt.Sprintf("%s on value %s panicked: %s", gripql.HasExpressionString(expr), v.Name, pan), Replay: map[string]any{"op": op.String(), "arg": arg, "value": v.Name}})
+						run.Report(vf.Violation{Sig: fmt.Sprintf("cond|%s|panic", op), Detail: fmt.Sprintf("%s on value %s panicked: %s", refsem.HasString(expr), v.Name, pan), Replay: map[string]any{"op": op.String(), "arg": arg, "value": v.Name}})
 					}
 					continue
 				}
@@ -188,7 +188,7 @@ func C08(tier string) int {
 				evals++
 				distinct[fmt.Sprintf("%s|%s|%s|%v", op, kindOf(v.Missing, v.V), argKind(arg), want)] = true
 				if pan != "" {
-					run.Report(vf.Violation{Sig: fmt.Sprintf("cond|%s|panic", op), Detail: fmt.Sprintf("%s on value %s panicked: %s", gripql.HasExpressionString(expr), v.Name, pan), Replay: map[string]any{"op": op.String(), "arg": arg, "value": v.Name}})
+					run.Report(vf.Violation{Sig: fmt.Sprintf("cond|%s|panic", op), Detail: fmt.Sprintf("%s on value %s panicked: %s", refsem.HasString(expr), v.Name, pan), Replay: map[string]any{"op": op.String(), "arg": arg, "value": v.Name}})
 					continue
 				}
 				if want == refsem.True {
@@ -196,12 +196,12 @@ func C08(tier string) int {
 				}
 				if got != (want == refsem.True) {
 					run.Report(vf.Violation{Sig: fmt.Sprintf("cond|%s|value=%s|arg=%s|documented=%v", op, kindOf(v.Missing, v.V), argKind(arg), want == refsem.True),
-						Detail: fmt.Sprintf("has(%s) on f=%s: documentation says %v, engine says %v", gripql.HasExpressionString(expr), v.Name, want == refsem.True, got),
+						Detail: fmt.Sprintf("has(%s) on f=%s: documentation says %v, engine says %v", refsem.HasString(expr), v.Name, want == refsem.True, got),
 						Replay: map[string]any{"op": op.String(), "arg": arg, "value": v.Name}})
 				}
 			}
 			if len(samples) < 6 && evals%701 < 14 {
-				samples = append(samples, gripql.HasExpressionString(expr))
+				samples = append(samples, refsem.HasString(expr))
 			}
 			// (b) through the production pipeline
 			if undefined {
@@ -211,7 +211,7 @@ func C08(tier string) int {
 			res := qrun.Run(gi.Compiler(), q.Statements, 20*time.Second)
 			pipeRuns++
 			if res.CompileErr != nil || res.TimedOut {
-				run.Report(vf.Violation{Sig: fmt.Sprintf("pipeline|%s|compile-or-timeout", op), Detail: fmt.Sprintf("V().has(%s): err=%v timeout=%v", gripql.HasExpressionString(expr), res.CompileErr, res.TimedOut), Replay: map[string]any{"op": op.String(), "arg": arg}})
+				run.Report(vf.Violation{Sig: fmt.Sprintf("pipeline|%s|compile-or-timeout", op), Detail: fmt.Sprintf("V().has(%s): err=%v timeout=%v", refsem.HasString(expr), res.CompileErr, res.TimedOut), Replay: map[string]any{"op": op.String(), "arg": arg}})
 				continue
 			}
 			var gotKept []string
@@ -231,7 +231,7 @@ func C08(tier string) int {
 						}
 					}
 					run.Report(vf.Violation{Sig: fmt.Sprintf("cond|%s|value=%s|arg=%s|documented=%v", op, kindOf(v.Missing, v.V), argKind(arg), contains(wantKept, name)),
-						Detail: fmt.Sprintf("V().has(%s): documentation keeps %v, traversal returned %v", gripql.HasExpressionString(expr), wantKept, gotKept),
+						Detail: fmt.Sprintf("V().has(%s): documentation keeps %v, traversal returned %v", refsem.HasString(expr), wantKept, gotKept),
 						Replay: map[string]any{"op": op.String(), "arg": arg, "via": "pipeline"}})
 				}
 			}
@@ -299,12 +299,12 @@ func C08(tier string) int {
 			got, pan := matchSafe(travs[v.Name], e)
 			boolEvals++
 			if pan != "" {
-				run.Report(vf.Violation{Sig: "bool|panic", Detail: fmt.Sprintf("%s on %s panicked: %s", gripql.HasExpressionString(e), v.Name, pan), Replay: gripql.HasExpressionString(e)})
+				run.Report(vf.Violation{Sig: "bool|panic", Detail: fmt.Sprintf("%s on %s panicked: %s", refsem.HasString(e), v.Name, pan), Replay: refsem.HasString(e)})
 				continue
 			}
 			if want != refsem.Undefined && got != (want == refsem.True) {
 				run.Report(vf.Violation{Sig: fmt.Sprintf("bool|%s|truth-table", topKind(e)),
-					Detail: fmt.Sprintf("%s on f=%s: truth table says %v, engine says %v", gripql.HasExpressionString(e), v.Name, want == refsem.True, got), Replay: gripql.HasExpressionString(e)})
+					Detail: fmt.Sprintf("%s on f=%s: truth table says %v, engine says %v", refsem.HasString(e), v.Name, want == refsem.True, got), Replay: refsem.HasString(e)})
 			}
 		}
 	}
@@ -321,19 +321,19 @@ func C08(tier string) int {
 	meta := 0
 	for _, a := range lower {
 		if kept(gripql.Not(gripql.Not(a))) != kept(a) {
-			run.Report(vf.Violation{Sig: "bool|double-negation", Detail: "not(not(e)) keeps a different set than e for e=" + gripql.HasExpressionString(a), Replay: gripql.HasExpressionString(a)})
+			run.Report(vf.Violation{Sig: "bool|double-negation", Detail: "not(not(e)) keeps a different set than e for e=" + refsem.HasString(a), Replay: refsem.HasString(a)})
 		}
 		meta++
 		for _, b := range lower {
 			meta++
 			if kept(gripql.Not(gripql.And(a, b))) != kept(gripql.Or(gripql.Not(a), gripql.Not(b))) {
-				run.Report(vf.Violation{Sig: "bool|de-morgan-and", Detail: fmt.Sprintf("not(and(a,b)) != or(not a, not b) for a=%s b=%s", gripql.HasExpressionString(a), gripql.HasExpressionString(b)), Replay: nil})
+				run.Report(vf.Violation{Sig: "bool|de-morgan-and", Detail: fmt.Sprintf("not(and(a,b)) != or(not a, not b) for a=%s b=%s", refsem.HasString(a), refsem.HasString(b)), Replay: nil})
 			}
 			if kept(gripql.Not(gripql.Or(a, b))) != kept(gripql.And(gripql.Not(a), gripql.Not(b))) {
-				run.Report(vf.Violation{Sig: "bool|de-morgan-or", Detail: fmt.Sprintf("not(or(a,b)) != and(not a, not b) for a=%s b=%s", gripql.HasExpressionString(a), gripql.HasExpressionString(b)), Replay: nil})
+				run.Report(vf.Violation{Sig: "bool|de-morgan-or", Detail: fmt.Sprintf("not(or(a,b)) != and(not a, not b) for a=%s b=%s", refsem.HasString(a), refsem.HasString(b)), Replay: nil})
 			}
 			if kept(gripql.And(a, b)) != kept(gripql.And(b, a)) || kept(gripql.Or(a, b)) != kept(gripql.Or(b, a)) {
-				run.Report(vf.Violation{Sig: "bool|operand-order", Detail: fmt.Sprintf("operand order changes the kept set for a=%s b=%s", gripql.HasExpressionString(a), gripql.HasExpressionString(b)), Replay: nil})
+				run.Report(vf.Violation{Sig: "bool|operand-order", Detail: fmt.Sprintf("operand order changes the kept set for a=%s b=%s", refsem.HasString(a), refsem.HasString(b)), Replay: nil})
 			}
 		}
 	}
@@ -357,7 +357,7 @@ func C08(tier string) int {
 		}
 		sort.Strings(direct)
 		if res.CompileErr != nil || res.TimedOut || strings.Join(gotKept, ",") != strings.Join(direct, ",") {
-			run.Report(vf.Violation{Sig: "bool|pipeline-differs-from-direct-evaluation", Detail: fmt.Sprintf("V().has(%s): traversal %v (err=%v timeout=%v), direct evaluation %v", gripql.HasExpressionString(e), gotKept, res.CompileErr, res.TimedOut, direct), Replay: gripql.HasExpressionString(e)})
+			run.Report(vf.Violation{Sig: "bool|pipeline-differs-from-direct-evaluation", Detail: fmt.Sprintf("V().has(%s): traversal %v (err=%v timeout=%v), direct evaluation %v", refsem.HasString(e), gotKept, res.CompileErr, res.TimedOut, direct), Replay: refsem.HasString(e)})
 		}
 	}
 	run.Coverage["evaluations"] = evals + boolEvals + meta
